@@ -147,6 +147,73 @@ class SvSlow(_FloatOp):
         return FloatDataType(data.data + 0.5)
 
 
+class SvCaseOp(_FloatOp):
+    """Two required parameters whose names differ only in case."""
+
+    def _process_logic(self, data, Gain: float, gain: float):
+        _invoke("SvCaseOp", {"Gain": Gain, "gain": gain}, data)
+        return FloatDataType(data.data * Gain + gain)
+
+
+class SvScaleInPlace(_FloatOp):
+    """Mutates its input object in place and returns that same object (legal user code)."""
+
+    def _process_logic(self, data, scale: float = 3.0):
+        _invoke("SvScaleInPlace", {"scale": scale}, data)
+        data.data = data.data * scale
+        return data
+
+
+class SvStreamDataType(BaseDataType):
+    """A lazy, one-shot stream of floats (the value is a generator)."""
+
+    def validate(self, data) -> bool:
+        return True
+
+    def __repr__(self) -> str:
+        return "SvStreamDataType(<lazy>)"
+
+    def __str__(self) -> str:
+        return "SvStreamDataType(<lazy>)"
+
+
+class SvToStream(DataOperation):
+    """Float -> lazy stream of three floats."""
+
+    @classmethod
+    def input_data_type(cls):
+        return FloatDataType
+
+    @classmethod
+    def output_data_type(cls):
+        return SvStreamDataType
+
+    def _process_logic(self, data, step: float = 0.5):
+        _invoke("SvToStream", {"step": step}, data)
+        base = data.data
+        return SvStreamDataType(base + i * step for i in range(3))
+
+
+class SvStreamSum(DataOperation):
+    """Consumes the lazy stream -> float."""
+
+    @classmethod
+    def input_data_type(cls):
+        return SvStreamDataType
+
+    @classmethod
+    def output_data_type(cls):
+        return FloatDataType
+
+    def _process_logic(self, data):
+        items = list(data.data)
+        _invoke("SvStreamSum", {}, None)
+        w = _world.WORLD
+        if w is not None and not w.quiet:
+            w.log("stream.consumed", len(items))
+        return FloatDataType(float(sum(items)) + 0.001 * len(items))
+
+
 class SvCtxWriterA(_FloatOp):
     """Writes declared context key ``wa``."""
 
@@ -319,7 +386,7 @@ class SvBadCtxProc(ContextProcessor):
 
 LEAF_NAMES = [
     "SvSource", "SvSourceDefault", "SvPayloadSource", "SvAdd", "SvAddDefault", "SvMul",
-    "SvMulDefault", "SvAffine", "SvSlow", "SvCtxWriterA", "SvCtxWriterB", "SvBadWriter", "SvToText",
+    "SvMulDefault", "SvAffine", "SvSlow", "SvCaseOp", "SvScaleInPlace", "SvToStream", "SvStreamSum", "SvCtxWriterA", "SvCtxWriterB", "SvBadWriter", "SvToText",
     "SvTextLen", "SvCollSum", "SvProbe", "SvProbeParam", "SvProbeDefault", "SvFileSink",
     "SvNullSink", "SvCtxCombine", "SvBadCtxProc",
 ]
